@@ -34,6 +34,11 @@ TERMS = {
     'UserBase': sc.BASE_MODES['UserBase'],
     'Syntax': sc.MODES['Syntax'],
     'CloseStdout': "import sys\nprint('x')\nsys.stdout.close()",
+    # the student program itself rebinds what pedal borrowed
+    'SetTrace': "import sys\ndef my_trace(frame, event, arg):\n    return None\nsys.settrace(my_trace)\nx = 1",
+    'SetStdout': "import sys\nsys.stdout = None\nx = 1",
+    'SetSleep': "import time\ntime.sleep = len\nx = 1",
+    'DropModule': "import sys\nsys.modules.pop('json', None)\nsys.modules['made_up_by_student'] = sys\nx = 1",
     # the student's exception runs student code again while pedal reports it -- and that code interrupts
     'StrRaisesKI': "class K(Exception):\n    def __str__(self):\n        raise KeyboardInterrupt()\nraise K()",
     'StrRaisesExit': "class Q(Exception):\n    def __str__(self):\n        raise SystemExit(3)\nraise Q()",
@@ -124,6 +129,11 @@ def _ops(tier):
 def _check_after(ctx, hist, snap, raised):
     sb = sc.sb_cmds.get_sandbox()
     d = snap.diff()
+    if 'trace function' in d and hist[-1][1] == 'SetTrace' and hist[-1][2] == 'none':
+        # the property covers the trace function "when tracing is enabled": with tracing off pedal never touches it
+        # and what the student installed is out of scope (put back here so that the rest of the history is judged)
+        d.remove('trace function')
+        sys.settrace(snap.trace)
     leftovers = []
     if sb._current_patches:
         leftovers.append('_current_patches')
